@@ -19,7 +19,7 @@ def run(rep, tier, seed, replay):
                         "the exported wrapper VerifSlot observes upstream.chooseHost on a table whose slot i is owned by instance 'i'"]
     pr = vlib.prove(rep, PROP)
     vlib.prepare_runners()
-    n = 20000 if tier == "quick" else 2000000
+    n = 20000 if tier == "quick" else 300000
     rc = None
     if replay:
         import json
